@@ -11,7 +11,7 @@
    all data, paths and ids: the stitching layer neither loses, misplaces nor duplicates. *)
 From Coq Require Import String List Bool ZArith.
 From GW Require Import Base.Res Base.GoStr Base.Json Gql.Syntax Gql.Spec Gw.Points Gw.FedCheck
-     Proofs.CodecProofs Proofs.PointsProofs Proofs.FindProofs.
+     Gw.Locate Gw.Plan Proofs.CodecProofs Proofs.PointsProofs Proofs.FindProofs Proofs.PlanProofs Proofs.PlanCount.
 Import ListNotations.
 Open Scope string_scope.
 Open Scope list_scope.
@@ -21,6 +21,16 @@ Open Scope list_scope.
 Definition C01_statement (fuel : nat) (w : world) (frags : list fragdef) (vars : list (string * json))
            (root : string) (sels : list sel) (o : observed) : Prop :=
   c01_holds (exec fuel w frags vars None root sels) o = true.
+
+(* Planning.  For every document without named fragment spreads (the planner model Gw/Plan.v,
+   compared step by step with the implementation's plans on every run), every routing table and
+   priority list: the steps of the plan together hold exactly the fields of the operation's
+   selection, at every depth -- the planner drops none and duplicates none (the join ids it adds
+   itself are not counted). *)
+Theorem C01_plan_holds_every_field_once : forall prios urls ft fuel root sels s,
+  plan_operation prios urls ft fuel root sels = Ok s -> scount s = fcounts sels.
+Proof. exact plan_conserves_fields. Qed.
+Print Assumptions C01_plan_holds_every_field_once.
 
 (* Addressing.  A parent object is named by "<key>:<index>#<id>": for every response key (no ':'
    or '#'), every index below 2^63 and EVERY id text -- ids containing ':' '#' spaces or unicode
